@@ -87,9 +87,11 @@ struct PFault {
 struct PPlan {
   std::vector<POp> ops;
   PFault fault;
+  bool exhaustive = false;  // the plain enumeration part (no ops, no faults)
   Json ToJson() const {
     Json j = Json::Object();
     j["engine"] = "prim";
+    if (exhaustive) j["exhaustive"] = 1;
     Json o = Json::Array();
     for (const POp &op : ops) o.push(op.ToJson());
     j["ops"] = o;
@@ -107,6 +109,7 @@ struct PPlan {
     const std::string k = j.get("fault").get("kind").Str();
     p.fault.kind = k == "none" ? 1 : k == "trunc" ? 2 : k == "extra" ? 3 : k == "flip" ? 4 : 0;
     p.fault.t = j.get("fault").get("t").Int();
+    p.exhaustive = j.has("exhaustive") && j.get("exhaustive").Int() != 0;
     return p;
   }
 };
@@ -906,6 +909,8 @@ int PrimMain(const std::map<std::string, std::string> &a, const std::string &cmd
       PPlan p;
       uint64_t h;
       if (idx == 0) {
+        p.exhaustive = true;
+        p.fault.kind = 1;
         ExhaustivePart(&fs, &w_exh);
         Hasher hh;
         hh.U64(fs.size());
@@ -1055,7 +1060,15 @@ int PrimMain(const std::map<std::string, std::string> &a, const std::string &cmd
       std::vector<PFinding> fs;
       uint64_t o = 0, e = 0;
       std::map<std::string, uint64_t> k;
-      const uint64_t h = RunPrimPlan(p, &fs, &o, &e, &k);
+      uint64_t h;
+      if (p.exhaustive) {
+        ExhaustivePart(&fs, &o);
+        Hasher hh;
+        hh.U64(fs.size());
+        h = hh.Digest();
+      } else {
+        h = RunPrimPlan(p, &fs, &o, &e, &k);
+      }
       Json res = Json::Object();
       res["t"] = "result";
       res["n"] = static_cast<unsigned long long>(n);
